@@ -426,20 +426,56 @@ package tree
 //@   props C04
 //@   requires s != nil && lvFull(s.leafVariants)
 //@   requires field_schemas_are_typed: s.schema.GetField() != nil ==> s.schema.GetField().Type != nil && lengthsOK(s.schema.GetField().Type.Length)
+//@   requires leaflist_schemas_are_typed: s.schema.GetLeaflist() != nil ==> s.schema.GetLeaflist().Type != nil && lengthsOK(s.schema.GetLeaflist().Type.Length)
 //@   uses GetHighestPrecedence: member view_is_total
 //@   let n0 = ntrace()
-//@   let lengths = s.schema.GetField().Type.Length
-//@   ensures unrestricted_is_silent: s.schema.GetField() == nil || len(lengths) == 0 ==> ntrace() == n0
-//@   ensures the_value_in_force_is_measured_in_characters: called(RuneCountInString) ==> callres(RuneCountInString, 0) == runeCount(callres(GetStringVal, 0)) &&
-//@            callarg(GetStringVal, 0, 0) == callres(Value, 0, 0) && callarg(Value, 0, 0) == callres(GetHighestPrecedence, 0).Update
-//@   ensures within_the_allowed_length_is_silent: called(RuneCountInString) && inLength(lengths, callres(RuneCountInString, 0)) ==> ntrace() == n0
-//@   ensures outside_the_allowed_length_is_reported: called(RuneCountInString) && !inLength(lengths, callres(RuneCountInString, 0)) ==> ntrace() == n0 + 1
-//@   ensures a_restricted_leaf_with_a_value_is_looked_at: s.schema.GetField() != nil && len(lengths) > 0 && len(s.leafVariants.les) > 0 ==> called(Value)
-//@   ensures a_readable_value_is_measured: called(Value) && callres(Value, 0, 1) == nil ==> called(RuneCountInString)
-//@   loop 0 invariant s.schema.GetField() != nil && s.schema.GetField().Type != nil && s.schema.GetField().Type.Length == lengths && lengthsOK(lengths)
-//@   loop 1 invariant s.schema.GetField() != nil && s.schema.GetField().Type != nil && s.schema.GetField().Type.Length == lengths && lengthsOK(lengths)
-//@   loop 0 invariant ntrace() == n0 && forall(j, 0, $n, !(lengths[j].Min.Value <= callres(RuneCountInString, 0) && callres(RuneCountInString, 0) <= lengths[j].Max.Value))
-//@   loop 1 invariant ntrace() == n0
+//@   let isValue = s.schema.GetField() != nil || s.schema.GetLeaflist() != nil
+//@   let lengths = ite(s.schema.GetField() != nil, s.schema.GetField().Type.Length, s.schema.GetLeaflist().Type.Length)
+//@   ensures unrestricted_is_silent: !isValue || len(lengths) == 0 ==> ntrace() == n0
+//@   ensures the_value_in_force_is_measured: called(restrictedTexts) ==>
+//@            callarg(restrictedTexts, 0, 0) == callres(Value, 0, 0) && callarg(Value, 0, 0) == callres(GetHighestPrecedence, 0).Update
+//@   ensures outside_the_allowed_length_is_reported: called(restrictedTexts) && ntrace() == n0 ==> forall(j, 0, len(callres(restrictedTexts, 0)), inLength(lengths, runeCount(callres(restrictedTexts, 0)[j])))
+//@   ensures within_the_allowed_length_is_silent: ntrace() >= n0 && (called(restrictedTexts) && ntrace() > n0 ==> exists(j, 0, len(callres(restrictedTexts, 0)), !inLength(lengths, runeCount(callres(restrictedTexts, 0)[j]))))
+//@   ensures a_restricted_value_is_looked_at: isValue && len(lengths) > 0 && len(s.leafVariants.les) > 0 ==> called(Value)
+//@   ensures a_readable_value_is_measured: called(Value) && callres(Value, 0, 1) == nil ==> called(restrictedTexts)
+//@   loop 0 invariant isValue && lengthsOK(lengths) && ntrace() >= n0
+//@   loop 0 invariant s.schema.GetField() != nil ==> s.schema.GetField().Type != nil && s.schema.GetField().Type.Length == lengths
+//@   loop 0 invariant s.schema.GetField() == nil ==> s.schema.GetLeaflist() != nil && s.schema.GetLeaflist().Type != nil && s.schema.GetLeaflist().Type.Length == lengths
+//@   loop 0 invariant silent_so_far_means_every_text_so_far_is_within: ntrace() == n0 ==> forall(j, 0, $n, inLength(lengths, runeCount(callres(restrictedTexts, 0)[j])))
+//@   loop 0 invariant a_report_so_far_means_a_text_so_far_is_outside: ntrace() > n0 ==> exists(j, 0, $n, !inLength(lengths, runeCount(callres(restrictedTexts, 0)[j])))
+
+// the texts the length and pattern restrictions are checked against: the value of a leaf, every entry of a leaf-list
+//@ pred textOf(v) = ite(v != nil && istype(v.Value, *sdcpb.TypedValue_StringVal), dyn(v.Value, *sdcpb.TypedValue_StringVal).StringVal, "")
+//@ func restrictedTexts
+//@   props C04
+//@   modifies nothing
+//@   ensures a_leaf_value_is_one_text: tv.GetLeaflistVal() == nil ==> len(result) == 1 && result[0] == textOf(tv)
+//@   ensures every_entry_of_a_leaf_list_is_a_text: tv.GetLeaflistVal() != nil ==> len(result) == len(tv.GetLeaflistVal().Element) &&
+//@            forall(j, 0, len(result), result[j] == textOf(tv.GetLeaflistVal().Element[j]))
+//@   loop 0 invariant unchanged(allelems(string)) && fresh(result) && len(result) == $n && forall(j, 0, $n, result[j] == textOf(tv.GetLeaflistVal().Element[j]))
+
+// the path of an entry is a sequence of its own: building it writes to nothing that was there before
+//@ iface Entry.Path
+//@   modifies nothing
+//@   ensures a_sequence_of_its_own: fresh(result)
+//@ func (*sharedEntryAttributes).Path
+//@   props C04
+//@   requires s != nil
+//@   modifies nothing
+//@   ensures a_sequence_of_its_own: fresh(result)
+
+//@ func lengthAllowed
+//@   props C04
+//@   requires lengthsOK(lengths) && actualLength >= 0
+//@   modifies nothing
+//@   ensures one_of_the_definitions_allows_it: result == inLength(lengths, actualLength)
+//@   loop 0 invariant forall(j, 0, $n, !(lengths[j].Min.Value <= actualLength && actualLength <= lengths[j].Max.Value))
+
+//@ func lengthsString
+//@   props C04
+//@   requires lengthsOK(lengths)
+//@   modifies nothing
+//@   loop 0 invariant fresh(result) && unchanged(allelems(string))
 
 // ---------------------------------------------------------------------------
 // C11 (and leafref navigation, C04): FilterChilds returns list entries only, never the key-level entries above them.
